@@ -3,7 +3,10 @@ package main
 import (
 	"bytes"
 	"crypto/cipher"
+	"encoding/base64"
+	"encoding/hex"
 	"fmt"
+	"strings"
 	"sync"
 
 	"github.com/tjfoc/gmsm/sm4"
@@ -339,5 +342,51 @@ func runC05(c *Ctx) {
 			rep.Eval("keylen-after-related-valid-key")
 		}
 	}
-	rep.Exhaustive("key lengths 0..64; all 384 single-bit key/block patterns")
+	// wrong-length keys whose CONTENT is special: a textual encoding of a valid key (hex, base64, with prefix, separators
+	// or a terminator), printable text of every length, all-equal bytes. Length validation is about the byte count only.
+	{
+		rk := c.Rng("keylen-content")
+		K := rk.Bytes(16)
+		hexl := hex.EncodeToString(K)
+		var colon []string
+		for _, b := range K {
+			colon = append(colon, fmt.Sprintf("%02x", b))
+		}
+		named := map[string][]byte{
+			"hex-lower": []byte(hexl), "hex-upper": []byte(strings.ToUpper(hexl)), "hex-0x": []byte("0x" + hexl),
+			"hex-colon": []byte(strings.Join(colon, ":")), "hex-space": []byte(strings.Join(colon, " ")),
+			"base64-std": []byte(base64.StdEncoding.EncodeToString(K)), "base64-raw": []byte(base64.RawStdEncoding.EncodeToString(K)),
+			"base64-url":  []byte(base64.RawURLEncoding.EncodeToString(K)),
+			"key+newline": append(append([]byte{}, K...), '\n'), "key+crlf": append(append([]byte{}, K...), '\r', '\n'), "key+nul": append(append([]byte{}, K...), 0),
+			"hex-digits-only-32": []byte("0123456789abcdef0123456789abcdef"), "decimal-32": []byte("01234567890123456789012345678901"),
+			"hex-half-8": []byte(hexl[:8]),
+		}
+		alphabets := map[string]string{"hexdigits": "0123456789abcdef", "HEXDIGITS": "0123456789ABCDEF", "digits": "0123456789", "base64": "ABCDEFGHIJKLMNOPQRSTUVWXYZabcdefghijklmnopqrstuvwxyz0123456789+/", "printable": " !#$%&()*+,-./0123456789:;<=>?@ABCDEFGHIJKLMNOPQRSTUVWXYZ[]^_abcdefghijklmnopqrstuvwxyz{|}~", "zero": "\x00", "ff": "\xff", "space": " ", "equals": "="}
+		try := func(class string, key []byte) {
+			var err error
+			var blk interface{}
+			if pi := mon.Guard(func() { blk, err = sm4.NewCipher(key) }); pi != nil {
+				rep.Violation("C05/NewCipher/panic/"+pi.Func, fmt.Sprintf("%s key of %d bytes: %s", class, len(key), pi.Value), map[string]interface{}{"key": mon.Hex(key)})
+			} else if len(key) != 16 && err == nil {
+				rep.Violation("C05/NewCipher/accepts-wrong-key-length/content="+class, fmt.Sprintf("key of %d bytes (%q) accepted (%T)", len(key), key, blk), map[string]interface{}{"key": mon.Hex(key)})
+			} else if len(key) == 16 && err != nil {
+				rep.Violation("C05/NewCipher/rejects-16-byte-key/content="+class, err.Error(), map[string]interface{}{"key": mon.Hex(key)})
+			}
+			rep.Eval("keylen-content/" + class)
+		}
+		for _, name := range sortedKeys(named) {
+			try(name, named[name])
+		}
+		for _, name := range sortedKeys(alphabets) {
+			al := alphabets[name]
+			for n := 0; n <= 64; n++ {
+				k := make([]byte, n)
+				for i := range k {
+					k[i] = al[rk.Intn(len(al))]
+				}
+				try("alphabet-"+name, k)
+			}
+		}
+	}
+	rep.Exhaustive("key lengths 0..64 (random content, and per content alphabet); all 384 single-bit key/block patterns")
 }
